@@ -53,7 +53,7 @@ func main() {
 		}
 	}
 	if *replay != "" {
-		pf, ok := map[string]string{"c01": "pf01", "c06": "pf06", "c07": "pf07", "c08": "pf08", "c09": "pf09", "c10": "pf10", "c11": "pf11", "c11cs": "pf11cs", "c12": "pf12", "c13adm": "pf13", "c18adm": "pf18"}[stream]
+		pf, ok := map[string]string{"c01": "pf01", "c03adm": "pf01", "c06": "pf06", "c07": "pf07", "c08": "pf08", "c09": "pf09", "c10": "pf10", "c11": "pf11", "c11cs": "pf11cs", "c12": "pf12", "c13adm": "pf13", "c18adm": "pf18"}[stream]
 		if !ok {
 			fmt.Fprintln(os.Stderr, "replay is only available for the admission streams")
 			os.Exit(2)
@@ -88,6 +88,8 @@ func main() {
 			set, in = streams.Pods("c03", *seed, *n, "Model.Api Model.Pod Model.Checks Corr.PodCases Corr.C02", "pod_case", "run_c03", true)
 		case "c01":
 			set, in = streams.Adm("c01", *seed, *n, "pf01", []string{"pod"})
+		case "c03adm":
+			set, in = streams.Adm("c03adm", *seed, *n, "pf01", []string{"pod"})
 		case "c06":
 			set, in = streams.Adm("c06", *seed, *n, "pf06", []string{"pod", "controller", "namespace"})
 		case "c07":
